@@ -1,12 +1,141 @@
 /-
-  Oracle commands for C06 (stub: owns no commands yet).
+  Oracle commands for C06 (KV cache):
+    kv-x <history>  -> per op, joined by " | ": the exposed entries of every batch token
+                       (pos.id.shift, sorted) and the abstraction `abs` of the state
+    kv-l <history>  -> per op: cell layout, rows, ranges, current placement  (sub-correspondence C06.layout)
+  <history> = variant W maxSeq capacity maxBatch cachePad batchPad hasShift permV maskF16 maxNodes nops op*
+  op = F n (seq pos id)*n | C src dst len | R seq begin end | Q seq pos
 -/
+import OllamaVerif.Model.Causal
 import Oracle.Util
 namespace Oracle.C06
-open Oracle
+open Oracle OllamaVerif.KV OllamaVerif.Causal
+
+inductive Op where
+  | fwd (toks : List (Tok × Nat))
+  | cp (src dst : Nat) (len : Int)
+  | rm (seq : Nat) (b e : Int)
+  | q (seq : Nat) (pos : Int)
+
+def pOp : TP Op := do
+  let k ← tok
+  match k with
+  | "F" =>
+    let n ← nat
+    let toks ← rep n (do
+      let s ← nat; let p ← int; let id ← nat
+      pure ((⟨s, p⟩ : Tok), id))
+    return .fwd toks
+  | "C" => return .cp (← nat) (← nat) (← int)
+  | "R" => return .rm (← nat) (← int) (← int)
+  | "Q" => return .q (← nat) (← int)
+  | _ => failure
+
+def pWindow : TP (Option Int) := do
+  let t ← tok
+  if t == "inf" then pure none else
+  match t.toInt? with
+  | some n => pure (some n)
+  | none => failure
+
+def lexLt : List Int → List Int → Bool
+  | [], [] => false
+  | [], _ :: _ => true
+  | _ :: _, [] => false
+  | a :: as, b :: bs => if a < b then true else if a > b then false else lexLt as bs
+
+def insertKey (k : List Int) : List (List Int) → List (List Int)
+  | [] => [k]
+  | x :: xs => if lexLt k x then k :: x :: xs else x :: insertKey k xs
+
+def sortKeys (ks : List (List Int)) : List (List Int) := ks.foldl (fun acc k => insertKey k acc) []
+
+def showKeys (ks : List (List Int)) : String :=
+  "[" ++ joinWith "," ((sortKeys ks).map (fun k => joinWith "." (k.map toString))) ++ "]"
+
+def sortNat (l : List Nat) : List Nat := (l.toArray.qsort (· < ·)).toList
+
+def absKeys (c : Cache) : List (List Int) :=
+  (c.cells.zip c.rows).filterMap (fun (cell, row) =>
+    if cell.seqs = [] then none
+    else some ([cell.pos, (row.id : Int), row.shift] ++ (sortNat cell.seqs).map (fun (s : Nat) => (s : Int))))
+
+def showNat (n : Nat) : String := if n = maxInt then "M" else toString n
+
+def enumFrom {α} : Nat → List α → List (Nat × α)
+  | _, [] => []
+  | i, x :: xs => (i, x) :: enumFrom (i + 1) xs
+
+def showLayout (c : Cache) (seqIds : List Nat) (fwdOk : Bool) : String :=
+  let cells := (enumFrom 0 c.cells).filterMap (fun (i, cell) =>
+    if cell.seqs ≠ [] ∨ cell.pos ≠ 0 then
+      some s!"{i}:{cell.pos}:{joinWith "+" (cell.seqs.map toString)}" else none)
+  let rows := (enumFrom 0 c.rows).filterMap (fun (i, r) =>
+    if r.id ≠ 0 ∨ r.shift ≠ 0 then some s!"{i}:{r.id}:{r.shift}" else none)
+  let ranges := seqIds.filterMap (fun s => (c.ranges s).map (fun r => s!"{s}:{showNat r.min}:{showNat r.max}"))
+  let cur := if fwdOk then s!" cur={c.curLoc}:{showNat c.curRange.min}:{showNat c.curRange.max}" else ""
+  s!"cells={joinWith "," cells} rows={joinWith "," rows} ranges={joinWith "," ranges}{cur}"
+
+structure Acc where
+  c : Cache
+  xs : List String   -- reversed
+  ls : List String
+  dead : Bool
+
+def stepOp (seqIds : List Nat) (a : Acc) (op : Op) : Acc :=
+  if a.dead then a else
+  match op with
+  | .fwd toks =>
+    let b := toks.map (·.1)
+    match startForward a.c b with
+    | (_, .panic) => { a with xs := "panic" :: a.xs, ls := "panic" :: a.ls, dead := true }
+    | (c1, .full) =>
+      { a with c := c1, xs := s!"F:err:full;abs={showKeys (absKeys c1)}" :: a.xs, ls := showLayout c1 seqIds false :: a.ls }
+    | (c1, .ok) =>
+      let c2 := put c1 (toks.map (·.2))
+      let per := b.map (fun t => ":" ++ showKeys ((exposed c2 t).map (fun j =>
+        let cell := c2.cells.getD j Cell.empty
+        let row := c2.rows.getD j default
+        [cell.pos, (row.id : Int), row.shift])))
+      { a with c := c2, xs := s!"F:ok{String.join per};abs={showKeys (absKeys c2)}" :: a.xs,
+               ls := showLayout c2 seqIds true :: a.ls }
+  | .cp src dst len =>
+    let c1 := copyPrefix a.c src dst len
+    { a with c := c1, xs := s!"C;abs={showKeys (absKeys c1)}" :: a.xs, ls := showLayout c1 seqIds false :: a.ls }
+  | .rm seq b e =>
+    let (c1, r) := remove a.c seq b e
+    let rs := match r with | .ok => "ok" | .shared => "err:shared" | .notsup => "err:notsup"
+    { a with c := c1, xs := s!"R:{rs};abs={showKeys (absKeys c1)}" :: a.xs, ls := showLayout c1 seqIds false :: a.ls }
+  | .q seq pos =>
+    let r := canResume a.c seq pos
+    { a with xs := s!"Q:{r};abs={showKeys (absKeys a.c)}" :: a.xs, ls := showLayout a.c seqIds false :: a.ls }
+
+def opSeqs : Op → List Nat
+  | .fwd toks => toks.map (·.1.seq)
+  | .cp s d _ => [s, d]
+  | .rm s _ _ => [s]
+  | .q s _ => [s]
+
+def pHistory : TP (Cache × List Op) := do
+  let vbits ← nat
+  let w ← pWindow
+  let maxSeq ← nat; let capacity ← nat; let maxBatch ← nat
+  let cpad ← nat; let bpad ← nat
+  let hasShift ← nat
+  let _permV ← nat; let _maskF16 ← nat; let _maxNodes ← nat
+  let ops ← listOf pOp
+  let v : Variant := { fixDefrag := vbits % 2 = 1, fixResume := (vbits / 2) % 2 = 1, fixDiv := (vbits / 4) % 2 = 1 }
+  pure (init v w maxSeq capacity maxBatch cpad bpad (hasShift != 0), ops)
+
+def runHistory (layout : Bool) (c : Cache) (ops : List Op) : String :=
+  let seqIds := sortNat ((ops.flatMap opSeqs).eraseDups)
+  let a := ops.foldl (stepOp seqIds) ⟨c, [], [], false⟩
+  joinWith " | " (if layout then a.ls.reverse else a.xs.reverse)
 
 def handle (toks : List String) : Option String :=
   match toks with
+  | "kv-x" :: rest => runTP (do let (c, ops) ← pHistory; pure (runHistory false c ops)) rest
+  | "kv-l" :: rest => runTP (do let (c, ops) ← pHistory; pure (runHistory true c ops)) rest
   | _ => none
 
 end Oracle.C06
